@@ -221,6 +221,19 @@ VRootPow(b, k, d) ==
                          [] OTHER -> VUndef)
             ELSE VRes(m, b.fl)
 
+\* principal square root of an exact Gaussian rational a + c i (c # 0) that is a perfect square, else VUndef:
+\* with r = |b| rational, sqrt(b) = sqrt((r+a)/2) + sign(c) sqrt((r-a)/2) i
+GaussSqrt(b) ==
+    IF ~(IsNum(b) /\ Exact(b) /\ b.pi = R0 /\ b.ip = R0 /\ b.im # R0) THEN VUndef
+    ELSE LET a == b.re
+             c == b.im
+             r == RRoot(RAdd(RMul(a, a), RMul(c, c)), 2)
+         IN IF ~RDef(r) THEN VUndef
+            ELSE LET u == RRoot(RMul(RAdd(r, a), <<1, 2>>), 2)
+                     v == RRoot(RMul(RSub(r, a), <<1, 2>>), 2)
+                 IN IF ~RDef(u) \/ ~RDef(v) THEN VUndef
+                    ELSE VEx(u, IF c[1] > 0 THEN v ELSE RNeg(v), R0, b.fl)
+
 \* b^e, principal branch
 VPow(b, e) ==
     IF b.t = "undef" \/ e.t = "undef" \/ b.t = "bool" \/ e.t = "bool" THEN VUndef
@@ -230,7 +243,8 @@ VPow(b, e) ==
          THEN IF ExactRat(e) /\ e.re[2] = 1 THEN VPowInt(b, e.re[1])
               ELSE IF ExactRat(e)
                    THEN LET k == e.re[1] d == e.re[2]
-                            r == VRootPow(b, k, d)
+                            gs == IF d = 2 THEN GaussSqrt(b) ELSE VUndef
+                            r == IF gs.t = "num" THEN VPowInt(gs, k) ELSE VRootPow(b, k, d)
                             mo == MonoPow(b.mo, k, d)
                         IN IF r.t = "num" THEN WithMono(r, mo)
                            ELSE IF r.t = "undef" /\ mo # NoMono THEN VFromMono(mo, b.fl)
